@@ -4,10 +4,13 @@
      rd   <p|t> <ctr> <tid> f1 f2 ..                      -> ok <status> <body> <nleft> <ctr'> | err .. | crash
      acc  <p|t> <ctr> f1 f2 ..                            -> some <op> <tid> <iid> <body> | none
      swr  <p|t> <ctr> <mtu> <mwwr> <op> <tid> <iid> <hex>  -> like wr, fragment size from det_fs (16-byte overhead iff t)
+     loop <p|t> <e> <d> fs:op:tid:iid:hex ..               -> ok e' d' a' b' st:body ..  (closed loop with demo_responder)
+     fsz  <mtu> <mwwr> <overhead>                         -> det_fs
      cwr  <op> <0|1,..> <iid,..> <hex,..>                 -> ok <hex> | crash   (write batch, per-position "known" flags)
      cenc <op> <iid,iid,..|.> <hex,hex,..|.>              -> ok <hex> | crash
      cdec <start> <hex>                                   -> ok r1 r2 ..   (r = b:<hex> | s:<n>)
      cexit <all|err> <nids> r1 r2 ..                      -> ok k:r ..
+     crd  <known iid,..|.> <aid:iid,..> r1 r2 ..           -> ok a.i=<s:n|r:hex|c<iid>:hex> .. | <iid>:hex ..  (entries | cache writes; dec = id)
      cparse <hex>                                         -> some op:tid:iid:hex .. | none *)
 open Drv
 let ni s = n_of_int (int_of_string s)
@@ -36,6 +39,17 @@ let handle = function
   | ["cwr"; op; flags; iids; datas] ->
       res_str hex_of_bytes (Pdu.coap_write_batch (Stdlib.List.map (fun f -> f = "1") (csv flags)) (ni op)
                               (Stdlib.List.map ni (csv iids)) (Stdlib.List.map bytes_of_hex (csv datas)))
+  | "loop" :: m :: e :: d :: steps ->
+      let rq t = match Stdlib.String.split_on_char ':' t with
+        | [fs; op; tid; iid; h] -> ((((nat_of_int (int_of_string fs), ni op), ni tid), ni iid), bytes_of_hex h)
+        | _ -> failwith "step" in
+      let st = (n_of_dec e, n_of_dec d) in
+      res_str (fun ((outs, (e', d')), (a', b')) ->
+          Printf.sprintf "%s %s %s %s %s" (dec_of_n e') (dec_of_n d') (dec_of_n a') (dec_of_n b')
+            (clist (Stdlib.List.map (fun (stt, body) -> string_of_int (int_of_n stt) ^ ":" ^ hex_of_bytes body) outs)))
+        (Pdu.ble_loop (seal_of m) (open_of m) (seal_of m) (open_of m) Pdu.demo_responder st st (Stdlib.List.map rq steps))
+  | ["fsz"; mtu; mwwr; ov] ->
+      string_of_int (int_of_nat (Pdu.det_fs (nat_of_int (int_of_string mtu)) (nat_of_int (int_of_string mwwr)) (nat_of_int (int_of_string ov))))
   | "rd" :: m :: ctr :: tid :: fr ->
       res_str (fun (((st, body), rest), c) ->
           Printf.sprintf "%d %s %d %s" (int_of_n st) (hex_of_bytes body) (Stdlib.List.length rest) (dec_of_n c))
@@ -57,6 +71,16 @@ let handle = function
       let rs = Stdlib.List.map cres_of rs in
       res_str (fun l -> clist (Stdlib.List.map (fun (k, r) -> string_of_int (int_of_n k) ^ "=" ^ cres_str r) l))
         (if mode = "all" then Pdu.coap_exit_all ids rs else Pdu.coap_exit_errors ids rs)
+  | "crd" :: known :: ids :: rs ->
+      let kn = Stdlib.List.map ni (csv known) in
+      let idl = Stdlib.List.map (fun t -> match Stdlib.String.split_on_char ':' t with
+          | [a; i] -> (ni a, ni i) | _ -> failwith "id") (csv ids) in
+      let rv = function Pdu.RStatus s2 -> "s:" ^ string_of_int (int_of_n s2) | Pdu.RRaw b -> "r:" ^ hex_of_bytes b
+                      | Pdu.RConv (i, b) -> "c" ^ string_of_int (int_of_n i) ^ ":" ^ hex_of_bytes b in
+      res_str (fun (entries, writes) ->
+          clist (Stdlib.List.map (fun ((a, i), v) -> Printf.sprintf "%d.%d=%s" (int_of_n a) (int_of_n i) (rv v)) entries)
+          ^ " | " ^ clist (Stdlib.List.map (fun (i, b) -> string_of_int (int_of_n i) ^ ":" ^ hex_of_bytes b) writes))
+        (Pdu.coap_read_exit (fun b -> b) (fun i -> Stdlib.List.mem i kn) idl (Stdlib.List.map cres_of rs))
   | ["cparse"; h] ->
       let d = bytes_of_hex h in
       (match Pdu.coap_acc_parse (nat_of_int (Stdlib.List.length d + 1)) d with
